@@ -78,15 +78,21 @@ ReportClauseNames == {"statusKnown", "nAddedMatches", "solutionStatusAddsPath", 
                       "invalidGoalOnlyIfGoalInvalid", "exactOnlyIfReachable"}
 
 SomeExact(r) == \E i \in 1..Len(r.paths) : ~r.paths[i].approx
+(* A report of a CONTINUED solve() (same planner, same problem definition, no clear()) lists   *)
+(* the paths that call added; what the problem definition holds from earlier calls is summed   *)
+(* up in hasExact.  A resumed call may add nothing and still report the solution it holds, so  *)
+(* the clauses tying the status to the ADDED paths speak about the first call only; every      *)
+(* path clause applies to every added path of every call.                                      *)
+Resumed(r) == "resumed" \in DOMAIN r /\ r.resumed
 
 ReportClause(c, r) ==
     CASE c = "statusKnown" -> r.status \in SolutionStatuses \cup NonSolutionStatuses
       [] c = "nAddedMatches" -> Len(r.paths) = r.nAdded
-      [] c = "solutionStatusAddsPath" -> r.status \in SolutionStatuses => r.nAdded >= 1
-      [] c = "nonSolutionAddsNothing" -> r.status \notin SolutionStatuses => r.nAdded = 0
+      [] c = "solutionStatusAddsPath" -> (~Resumed(r) /\ r.status \in SolutionStatuses) => r.nAdded >= 1
+      [] c = "nonSolutionAddsNothing" -> r.status \notin SolutionStatuses => r.nAdded = 0   \* also when resumed
       (* status, approximate flag and paths agree *)
-      [] c = "exactStatusHasExactPath" -> r.status = "EXACT_SOLUTION" => SomeExact(r)
-      [] c = "approxStatusOnlyApproxPaths" -> r.status = "APPROXIMATE_SOLUTION" => ~SomeExact(r)
+      [] c = "exactStatusHasExactPath" -> r.status = "EXACT_SOLUTION" => (SomeExact(r) \/ (Resumed(r) /\ r.hasExact))
+      [] c = "approxStatusOnlyApproxPaths" -> r.status = "APPROXIMATE_SOLUTION" => ~SomeExact(r)   \* of the added paths
       (* facts the model determines from the map *)
       [] c = "invalidStartOnlyIfStartInvalid" -> r.status = "INVALID_START" => ~r.startValid
       [] c = "invalidStartNeverSolves" -> ~r.startValid => r.status \notin SolutionStatuses /\ r.nAdded = 0
